@@ -6,6 +6,7 @@ import (
 	"runtime"
 	"sync"
 	"sync/atomic"
+	"time"
 
 	"github.com/tikv/pd/server/schedule"
 	"verif/harness/lib/ev"
@@ -82,8 +83,88 @@ func (w *world) dispatchPair(g *reg, sources [2]string, delay [2]int) (overlappe
 	return callT[0] < retT[1] && callT[1] < retT[0]
 }
 
+// dispatchTriple: three parties. A third goroutine holds the controller's lock (it is parked inside
+// AddWaitingOperator, at its first region-cache read) while the two dispatches arrive and queue on that
+// lock; when the holder goes on, both are released together.
+func (w *world) dispatchTriple(g, other *reg, sources [2]string) {
+	view := g.view
+	if view == nil || other.view == nil {
+		return
+	}
+	w.prepareOnly = true
+	ts := w.submit(other, other.view, false, false, true, []string{"add-peer", "transfer", "remove-peer"}[w.rng.Intn(3)])
+	w.prepareOnly = false
+	if len(ts) != 1 {
+		return
+	}
+	hop := ts[0].op
+	name := "AddWaitingOperator(holds the lock)‖Dispatch(" + sources[0] + ")‖Dispatch(" + sources[1] + ")"
+	ci := &callInfo{name: name, g: g, pair: true, holder: true}
+	if sources[0] == "heartbeat" || sources[1] == "heartbeat" {
+		ci.hbView = view
+	}
+	g.logf("#%d two dispatches (%s, %s) queue behind AddWaitingOperator(op%d of region %d) which holds the controller lock", w.evNo, sources[0], sources[1], ts[0].id, other.id)
+	hook := w.hc.hook
+	var armed int32 = 1
+	parked, release := make(chan struct{}), make(chan struct{})
+	w.hc.hook = func(id uint64, n int) {
+		if atomic.CompareAndSwapInt32(&armed, 1, 0) {
+			close(parked)
+			<-release
+		}
+	}
+	w.call(ci, func() {
+		var wg sync.WaitGroup
+		var panicked atomic.Value
+		guard := func() {
+			if p := recover(); p != nil {
+				panicked.Store(fmt.Sprint(p))
+			}
+		}
+		wg.Add(1)
+		go func() {
+			defer wg.Done()
+			defer guard()
+			w.oc.AddWaitingOperator(hop)
+		}()
+		select {
+		case <-parked:
+		case <-time.After(2 * time.Second): // the call made no cache read: nothing to hold
+			atomic.StoreInt32(&armed, 0)
+			w.r.Count("triple_holder_did_not_park", 1)
+		}
+		var started int32
+		for i := 0; i < 2; i++ {
+			wg.Add(1)
+			go func(i int) {
+				defer wg.Done()
+				defer guard()
+				src := schedule.DispatchFromHeartBeat
+				if sources[i] == "push" {
+					src = schedule.DispatchFromNotifierQueue
+				}
+				atomic.AddInt32(&started, 1)
+				w.oc.Dispatch(view, src) // blocks on the controller lock
+			}(i)
+		}
+		for i := 0; i < 200 && atomic.LoadInt32(&started) < 2; i++ {
+			runtime.Gosched()
+		}
+		for i := 0; i < 20; i++ { // let both reach the lock (exploration only)
+			runtime.Gosched()
+		}
+		close(release)
+		wg.Wait()
+		if p := panicked.Load(); p != nil {
+			panic(p)
+		}
+	})
+	w.hc.hook = hook
+	w.r.Count("triple_rounds", 1)
+}
+
 func pairPhase(r *ev.Run, rng *rand.Rand) {
-	target := r.Pick(60000, 150000) // concurrent rounds
+	target := r.Pick(52000, 150000) // concurrent rounds
 	rounds, wi := 0, 0
 	wants := []string{"move-peer", "move-peer", "add-peer", "builder", "demote-k", "swap-roles", "remove-peer", "move-leader", "builder"}
 	for rounds < target {
@@ -139,6 +220,20 @@ func pairPhase(r *ev.Run, rng *rand.Rand) {
 				}
 				var delay [2]int
 				delay[rng.Intn(2)] = []int{0, 0, 5, 20, 60, 150, 400}[rng.Intn(7)]
+				if rng.Intn(5) == 0 {
+					var others []*reg
+					for _, o := range w.liveRegions() {
+						if o != g && w.running[o.id] == nil && o.view != nil && !o.dirty {
+							others = append(others, o)
+						}
+					}
+					if len(others) > 0 {
+						w.dispatchTriple(g, others[rng.Intn(len(others))], src)
+						rounds++
+						r.Count("pair_rounds", 1)
+						continue
+					}
+				}
 				ov := w.dispatchPair(g, src, delay)
 				rounds++
 				r.Count("pair_rounds", 1)
